@@ -301,5 +301,12 @@ def gen_cases(tier, seed):
                                       "delay": delay, "bdelay": bdelay})
                         plans.append({"users": "A", "seed": seed, "pre": pre, "lead": 2, "burst": ["MLST /whoami", "RMD /d", "USER " + acct] + tail[:2],
                                       "delay": delay, "bdelay": bdelay})
+    # ... a login whose password check takes longer than any wait inside the server, and a re-USER right behind it
+    for own, pw in (("carol", "pw2"), ("alice", "secret")):
+        victim = "alice" if own == "carol" else "carol"
+        for tail in (["PWD", "MLST /whoami"], ["MKD /pwned", "PASV"], ["PASS wrong", "PWD"], ["RETR /whoami"]):
+            for delay in (0.3, 1.5, 4.0):
+                plans.append({"users": "A", "seed": seed, "pre": [], "lead": 2, "burst": ["USER " + own, "PASS " + pw, "USER " + victim] + tail,
+                              "delay": delay, "bdelay": 0})
     per = 60
     return [{"plans": plans[i:i + per]} for i in range(0, len(plans), per)]
